@@ -600,12 +600,18 @@ fn geoms(g: &mut G) -> LefLibrary {
         g.point("0.11", "0.12", "geoms.x1", "geoms.y1"),
         g.point("0.13", "0.14", "geoms.x2", "geoms.y2"),
     );
-    let pat = LefStepPattern {
+    let mut pat = LefStepPattern {
         numx: g.num("2", "geoms.numx"),
         numy: g.num("3", "geoms.numy"),
         spacex: g.num("0.55", "geoms.spx"),
         spacey: g.num("0.65", "geoms.spy"),
     };
+    // degenerate step patterns: a single copy, a single column
+    match g.c.cost(3, "geoms.do") {
+        0 => {}
+        1 => (pat.numx, pat.numy) = (d("1"), d("1")),
+        _ => (pat.numx, pat.numy) = (d("1"), d("4")),
+    }
     let pat2 = LefStepPattern { numx: d("4"), numy: d("5"), spacex: d("1.5"), spacey: d("-2.5") };
     let npoly = g.of(&[4usize, 3, 6, 104, 103], "geoms.npoly");
     let npath = g.of(&[2usize, 3, 5, 103, 104], "geoms.npath");
@@ -717,11 +723,13 @@ fn density(g: &mut G) -> LefLibrary {
             geometries: vec![LefDensityRectangle { pt1: pt("1", "2"), pt2: pt("3", "4"), density_value: d("5.55") }],
         },
     ];
-    match g.c.cost(4, "density.shape") {
+    match g.c.cost(5, "density.shape") {
         0 => {}
         1 => ds.truncate(1),
         2 => ds[0].geometries.truncate(1),
-        _ => ds[1].geometries.clear(),
+        3 => ds[1].geometries.clear(),
+        // an empty DENSITY block
+        _ => ds.clear(),
     }
     let mut m = simple_macro("mac_a");
     m.density = Some(ds);
